@@ -465,7 +465,7 @@ func (g *coreGen) stmt(depth int) *cStmt {
 		init := &cStmt{k: "assign", x: w, e: &cExpr{k: "lit", n: int64(g.r.Intn(2))}}
 		g.inLoop++
 		g.nlabels++
-		li := &loopInfo{id: g.nlabels, labelable: g.inSwitch == 0}
+		li := &loopInfo{id: g.nlabels, labelable: true} // labels inside switch clauses work since fix 126ac4d (F43)
 		g.loops = append(g.loops, li)
 		var l *cStmt
 		switch g.r.Intn(4) {
